@@ -34,6 +34,8 @@ def register(PROPS, CLASSIFIERS, REPLAY_RUNNERS):
     def _c14_replay(case, obs, flavor):
         if "c14stop" in case:       # stop() inside a macrostep (c14stop.py): the payload carries its own scenario
             return _call("c14stop", "replay_problems")(case["c14stop"], flavor, case.get("finding_classifier"))
+        if "c15" in case:           # an actor world ended by stop() of the root (c14actors.py)
+            return _call("c14actors", "replay_problems")(case["c15"], flavor)
         return _call("c14", "replay_monitor")("C14", case, flavor)
 
     def _c04_replay(case, obs, flavor):
@@ -206,6 +208,10 @@ def register(PROPS, CLASSIFIERS, REPLAY_RUNNERS):
 
     # ------------------------------------------------------------------ C14: stop() INSIDE a macrostep (directed, both engines; F72)
     PROPS["C14"]["q_checks"].append(_lazy("c14stop", "c14_stop_mid_macrostep"))
+
+    # ------------------------------------------------------------------ C14: stop() of an interpreter that owns an actor subtree
+    PROPS["C14"]["q_checks"].append(_lazy("c14actors", "c14_actor_subtrees"))
+    PROPS["C14"]["lake_targets"] = list(PROPS["C14"].get("lake_targets", [])) + ["driver_actors"]
 
     def _c14stopcls(prob, case, flavor):
         from . import c14stop
